@@ -250,9 +250,10 @@ partial def loop (stdin stdout : IO.FS.Stream) : IO UInt32 := do
   let l := line.trimAscii.toString
   if l.isEmpty then loop stdin stdout else
   match handle l with
-  | .ok s => do stdout.putStrLn s; loop stdin stdout
+  | .ok s => do stdout.putStrLn s; stdout.flush; loop stdin stdout
   | .error e => do
     stdout.putStrLn (Json.mkObj [("error", Json.str e)]).compress
+    stdout.flush
     loop stdin stdout
 
 def run : IO UInt32 := do
